@@ -347,10 +347,10 @@ func (ro *Roles) acceptEffects(r *Report, which map[string]bool) {
 	}
 	admitPrefix := FuncName(ro.Admit) + "("
 	type agg struct {
-		ok   bool
-		bad  string
-		pos  string
-		n    int
+		ok  bool
+		bad string
+		pos string
+		n   int
 	}
 	aggs := map[string]*agg{}
 	note := func(rule, key string, ok bool, pos, bad string) {
